@@ -363,6 +363,10 @@ func execE2E(in val.V) val.V {
 	go func() { connDone <- conn.Connect() }()
 
 	published := []e2ePub{}
+	// with automatic IDs half of the scenarios publish like a relay: ONE Message, refilled by UnmarshalText for every
+	// event (the replayer stores a copy with the ID; the stored copies must keep their contents)
+	relayMode := auto && in.At(2).Truth()
+	relay := &sse.Message{}
 	publish := func(payloadKind int) {
 		seq := len(published)
 		typ, data := e2ePayload(payloadKind, seq)
@@ -377,6 +381,11 @@ func execE2E(in val.V) val.V {
 			m.ID = sse.ID(id)
 		}
 		published = append(published, e2ePub{id: id, typ: typ, data: data})
+		if relayMode {
+			if b, err := m.MarshalText(); err == nil && relay.UnmarshalText(b) == nil {
+				m = relay
+			}
+		}
 		if len(published)%2 == 0 {
 			_ = srv.Publish(m) // no topic given: the default topic
 		} else {
